@@ -216,6 +216,12 @@ func contentTypeCodecInverse(c *core.Ctx) {
 		for _, call := range astx.Calls(newConn.Body) {
 			if fn := astx.CalleeFunc(info, call); fn != nil && fn.Name() == "Get" && len(call.Args) == 1 {
 				if n := astx.RecvNamed(fn); n != nil && n.Obj().Name() == "readOnlyCodecs" {
+					// the lookup key computed in place
+					if inner, ok := astx.Unparen(call.Args[0]).(*ast.CallExpr); ok {
+						if f := astx.CalleeFunc(info, inner); f != nil && p.Decl(f) != nil {
+							codecFn = f
+						}
+					}
 					if obj := astx.ObjOf(info, call.Args[0]); obj != nil {
 						ast.Inspect(newConn.Body, func(x ast.Node) bool {
 							if as, ok := x.(*ast.AssignStmt); ok && len(as.Lhs) == 1 && len(as.Rhs) == 1 && astx.ObjOf(info, as.Lhs[0]) == obj {
@@ -596,6 +602,23 @@ func streamTypeConsts(c *core.Ctx) {
 				if len(call.Args) >= 1 && types.Identical(info.TypeOf(call.Args[0]), stT) {
 					protoArgs = append(protoArgs, call.Args[0])
 				}
+				// the protocol layer handed the finished Spec: the stream type it carries is the argument of
+				// the newSpec call that built that Spec
+				if len(call.Args) >= 1 {
+					if nt := astx.NamedOf(info.TypeOf(call.Args[0])); nt != nil && nt.Obj().Name() == "Spec" {
+						def := astx.Unparen(call.Args[0])
+						if o := astx.ObjOf(info, def); o != nil {
+							def = soleDefinition(info, fd.Body, o)
+						}
+						if def != nil {
+							if dc, ok := astx.Unparen(def).(*ast.CallExpr); ok && len(dc.Args) == 1 {
+								if df := astx.CalleeFunc(info, dc); df != nil && df.Name() == "newSpec" {
+									protoArgs = append(protoArgs, dc.Args[0])
+								}
+							}
+						}
+					}
+				}
 			}
 		}
 		if len(specArg) == 0 || len(protoArgs) == 0 {
@@ -625,7 +648,18 @@ func streamTypeConsts(c *core.Ctx) {
 				ok = true
 			}
 		}
-		c.Check(ok, "same-value/handlerConfig.newProtocolHandlers", fd.Pos(), "protocol handler params carry newSpec(<the streamType parameter>)")
+		// or the finished Spec is the parameter and goes into the params unchanged
+		if nt := astx.NamedOf(param.Type()); nt != nil && nt.Obj().Name() == "Spec" {
+			ast.Inspect(fd.Body, func(n ast.Node) bool {
+				if kv, isKV := n.(*ast.KeyValueExpr); isKV {
+					if id, isID := kv.Key.(*ast.Ident); isID && id.Name == "Spec" && astx.ObjOf(info, kv.Value) == param {
+						ok = !objWrittenIn(info, fd.Body, param)
+					}
+				}
+				return true
+			})
+		}
+		c.Check(ok, "same-value/handlerConfig.newProtocolHandlers", fd.Pos(), "protocol handler params carry newSpec(<the streamType parameter>) or the Spec parameter itself")
 	}
 
 	// newSpec: copies the parameter; IsClient only on the client side
